@@ -159,11 +159,16 @@ def main():
             toy = T.get_toy(p, n)
             for hashid in (0, 5, 7):
                 for enc in (1, 2, 3, -1):
+                    if enc == 2 and (p, n) != toys[0]:
+                        # recoverable encoding with q, r, s, v, e all symbolic is undecided within the time limit on the larger
+                        # toy curves (z3: unknown): claimed on the first toy curve only; recovery itself on the larger ones is C11's
+                        continue
                     for malle in (False, True):
                         for L in (32, 64) if hashid != 7 else (32, 64):
                             tasks.append(('opts', t_verify_opts(toy, hashid, enc, malle, L)))
         chk.bounds.append('Verify(opts): hash ids {0,SHA-256,SHA-512}, encodings {compact, compact-recoverable, 3, -1}, both malleability settings, digest lengths {32,64}; '
-                          'r,s arbitrary 16-bit values, recovery id arbitrary byte')
+                          'r,s arbitrary 16-bit values, recovery id arbitrary byte; toy curves %s (compact-recoverable on %s only)' % (toys if chk.thorough else toys[:1], toys[:1]))
+        chk.outside.append('Verify with the compact-recoverable encoding on toy curves other than %s (solver returns unknown within the limit; the recovery algebra on them is decided by C11)' % (toys[:1],))
 
     chk.run_tasks(tasks)
     chk.discharge()
